@@ -252,6 +252,31 @@ def compare_resumed(case: dict, ref: M.Outcome, rs: M.Outcome, rng: dict | None)
     return R.compare(ref.results, rs.results, skip_values=skip)
 
 
+def fresh_interpreter_resume(case: dict, files: dict, base: str, rng: dict | None) -> dict:
+    """The same restart in a brand-new Python process (no module globals, loggers, caches or run-time-created classes
+    survive; another PYTHONHASHSEED): emusim.child resumes from the crash world under the same seams and hands the
+    canonical results back.  Returns {"results", "error", "leftover"}."""
+    import os
+    import pickle
+    import subprocess
+    import tempfile
+
+    from ..bootstrap import VERIF_DIR
+    from ..seams import HarnessError
+
+    real_perm = case["cfg"]["optimize"] and case["perm_kind"] == "real"
+    job = {"files": files, "base": base, "rng": rng, "perm": None if real_perm else case["perm"], "optimize": bool(case["cfg"]["optimize"]) and not real_perm, "as_path": True}
+    with tempfile.TemporaryDirectory(dir="/dev/shm") as td:
+        with open(os.path.join(td, "job.pickle"), "wb") as f:
+            pickle.dump(job, f)
+        env = dict(os.environ, PYTHONHASHSEED="4242", PYTHONPATH=VERIF_DIR, EMUSIM_REEXEC="1", OMP_NUM_THREADS="1")
+        r = subprocess.run(["/venv/bin/python", "-W", "ignore", "-m", "emusim.child", os.path.join(td, "job.pickle"), os.path.join(td, "out.pickle")], env=env, cwd=VERIF_DIR, capture_output=True, text=True, timeout=900)
+        if r.returncode != 0 or not os.path.exists(os.path.join(td, "out.pickle")):
+            raise HarnessError(f"fresh-interpreter child failed (exit {r.returncode}): {r.stderr[-1500:]}")
+        with open(os.path.join(td, "out.pickle"), "rb") as f:
+            return pickle.load(f)
+
+
 def stage_of(w: dict, total_pcalls: int) -> str:
     if w["pcall"] >= total_pcalls and not w["inside"]:
         return "final"
